@@ -1,0 +1,49 @@
+//! Verification hooks (feature `verif-hooks`): thin public wrappers around crate-private
+//! items so that out-of-tree harnesses can drive them directly. Nothing here changes behaviour;
+//! every wrapper only forwards to the real item.
+use glam::DVec3;
+
+pub use crate::simple_cycle::SimpleCycle;
+pub use crate::voronoi::convex_cell::{WithFaces, WithoutFaces};
+pub use crate::voronoi::Generator;
+use crate::voronoi::boundary::SimulationBoundary;
+use crate::{Dimensionality, HalfSpace};
+
+/// Public newtype around the crate-private `SimulationBoundary`.
+#[derive(Clone)]
+pub struct Boundary(pub(crate) SimulationBoundary);
+
+impl Boundary {
+    pub fn cuboid(anchor: DVec3, width: DVec3, periodic: bool, dimensionality: Dimensionality) -> Self {
+        Boundary(SimulationBoundary::cuboid(anchor, width, periodic, dimensionality))
+    }
+    pub fn iloc(&self, loc: DVec3) -> [i64; 3] {
+        self.0.iloc(loc)
+    }
+    /// The pre-`iloc` rescaled coordinates (what the debug assertions of `iloc` look at).
+    pub fn rescaled(&self, loc: DVec3) -> DVec3 {
+        self.0.vh_rescaled(loc)
+    }
+    pub fn planes(&self) -> &[HalfSpace] {
+        &self.0.clipping_planes
+    }
+    pub fn dimensionality(&self) -> Dimensionality {
+        self.0.dimensionality
+    }
+}
+
+pub fn in_sphere_test_exact(a: &[i64], b: &[i64], c: &[i64], d: &[i64], v: &[i64]) -> f64 {
+    crate::geometry::in_sphere_test_exact(a, b, c, d, v)
+}
+
+pub fn in_sphere_test(a: DVec3, b: DVec3, c: DVec3, d: DVec3, v: DVec3) -> f64 {
+    crate::geometry::in_sphere_test(a, b, c, d, v)
+}
+
+pub fn generator_new(id: usize, loc: DVec3, dimensionality: Dimensionality) -> Generator {
+    Generator::vh_new(id, loc, dimensionality)
+}
+
+pub use crate::bounding_sphere::vh as bounding_sphere;
+pub use crate::rtree_nn::vh as rtree_nn;
+pub use crate::space::vh as space;
